@@ -4,7 +4,9 @@ import (
 	"bytes"
 	"fmt"
 	"os"
+	"runtime"
 	"strings"
+	"sync"
 	"testing"
 
 	"github.com/AdguardTeam/urlfilter"
@@ -184,6 +186,10 @@ func checkC11(c c11Case, rec *Rec) *Violation {
 			}
 			seen[got[i].idx] = i
 		}
+		if v := c11ConcurrentRetrieval(c, got, name, file); v != nil {
+			cleanup()
+			return v
+		}
 		// retrieval only after the scan has finished (scanner and retrieval share the file offset)
 		for pass := 0; pass < 2; pass++ {
 			for i, it := range got {
@@ -238,6 +244,69 @@ func checkC11(c c11Case, rec *Rec) *Violation {
 		return viol(id, "C11:string-vs-file-engines", "engine answers differ between String and File backing:\n%s\nvs\n%s", clipStr(answers[0]), clipStr(answers[1]))
 	}
 	rec.LabelN("rules-scanned-and-retrieved", len(want))
+	return nil
+}
+
+// c11ConcurrentRetrieval retrieves every scanned index from a second, cold
+// storage over the same content with several goroutines at once: each index
+// must still yield the rule that was scanned with it.
+func c11ConcurrentRetrieval(c c11Case, items []c11Item, name string, file bool) *Violation {
+	const id = "C11"
+	if len(items) < 2 {
+		return nil
+	}
+	if len(items) > 96 {
+		items = items[:96]
+	}
+	st, cleanup, err := c11Storage(c.Lists, file)
+	if err != nil {
+		return viol(id, "C11:harness", "%s storage: %v", name, err)
+	}
+	defer cleanup()
+	c14HookMu.Lock()
+	defer c14HookMu.Unlock()
+	setYieldHooks(func(string) { runtime.Gosched() })
+	defer setYieldHooks(nil)
+	const G = 4
+	errs := make([]string, G)
+	var wg sync.WaitGroup
+	start := make(chan struct{})
+	for g := 0; g < G; g++ {
+		wg.Add(1)
+		go func(g int) {
+			defer wg.Done()
+			defer func() {
+				if e := recover(); e != nil {
+					errs[g] = fmt.Sprintf("panic: %v", e)
+				}
+			}()
+			<-start
+			for k := range items {
+				// every goroutine walks the indexes from another starting point and direction
+				i := (k + g*len(items)/G) % len(items)
+				if g%2 == 1 {
+					i = len(items) - 1 - i
+				}
+				it := items[i]
+				r, rerr := st.RetrieveRule(it.idx)
+				if rerr != nil || r == nil {
+					errs[g] = fmt.Sprintf("RetrieveRule(%d) for scanned %+v: rule=%v err=%v", it.idx, clipItem(it), r, rerr)
+					return
+				}
+				if ruleKind(r) != it.kind || r.Text() != it.text || r.GetFilterListID() != it.listID {
+					errs[g] = fmt.Sprintf("RetrieveRule(%d) = (%s, %q, list %d), scanned %+v", it.idx, ruleKind(r), clipStr(r.Text()), r.GetFilterListID(), clipItem(it))
+					return
+				}
+			}
+		}(g)
+	}
+	close(start)
+	wg.Wait()
+	for g, e := range errs {
+		if e != "" {
+			return viol(id, "C11:concurrent-retrieve-differs:"+name, "%s-backed, %d goroutines retrieving from a cold storage, goroutine %d: %s", name, G, g, e)
+		}
+	}
 	return nil
 }
 
